@@ -70,7 +70,12 @@ def lean_sources_of(module_file):
 def lean_phase(pid, tier, log):
     """returns dict(ok, obligations, discharged, theorems[], failures[], axioms{})"""
     res = {"ok": True, "obligations": 0, "discharged": 0, "theorems": [], "failures": [], "axioms": {}}
-    mod = "Rrtk.Thm.%s" % pid
+    ns = "Rrtk.Thm.%s" % pid
+    mod = ns
+    # optional extension module: imports the property file and adds further theorems to the SAME namespace (used where the
+    # additions need lemma files that themselves import the property file)
+    if os.path.exists(os.path.join(LEAN, "Rrtk", "Thm", "Ext", pid + ".lean")):
+        mod = "Rrtk.Thm.Ext.%s" % pid
     rc, out = sh(["lake", "build", mod, "driver", "Rrtk.Audit"], cwd=LEAN, timeout=3000)
     log.append(out[-4000:])
     if rc != 0:
@@ -88,7 +93,7 @@ def lean_phase(pid, tier, log):
     os.makedirs(WORK, exist_ok=True)
     af = os.path.join(WORK, "audit_%s.lean" % pid)
     with open(af, "w") as f:
-        f.write("import %s\nimport Rrtk.Audit\n#audit_ns %s\n" % (mod, mod))
+        f.write("import %s\nimport Rrtk.Audit\n#audit_ns %s\n" % (mod, ns))
     rc, out = sh(["lake", "env", "lean", af], cwd=LEAN, timeout=1200)
     if rc != 0:
         res["ok"] = False
@@ -276,6 +281,16 @@ def main():
             continue
         outs_by_config[cname] = impl
         models_by_config[cname] = model
+        # tie-break variants of the device model (tools/gen.py): what they disagree on among themselves is not fixed by any property
+        variants = {}
+        dv_idx = [k for k, c in enumerate(lines) if c.startswith(("dv ", "wr "))]
+        if dv_idx:
+            sub = [lines[k] for k in dv_idx]
+            for tv in ("tie1", "tie2", "tie3"):
+                rcv, outv, errv = run_prog([driver] + drv_arg.split() + [tv], sub)
+                if len(outv) == len(sub):
+                    for k, o in zip(dv_idx, outv):
+                        variants.setdefault(k, []).append(o)
         seen = set()
         hist = corr["histogram"]
         for k, (c, a, b) in enumerate(zip(lines, impl, model)):
@@ -297,8 +312,29 @@ def main():
             if pre is not None:
                 v, detail = pre
             else:
+                vs = variants.get(k, [])
                 if "project" in P:      # compare only the observables this property owns
                     a, b = P["project"](c, a), P["project"](c, b)
+                    vs = [P["project"](c, x) for x in vs]
+                if vs and any(x != b for x in vs) and \
+                        wire.compare_lines(a, b, lm, P.get("tol"), P.get("float_value_eq", False))[0] in ("hard", "soft"):
+                    # model and implementation differ on a line whose outcome depends on a tie-break no property fixes: an
+                    # implementation line that equals one of the variants is conformant; otherwise compare up to the first token
+                    # on which the variants disagree with the model
+                    if any(wire.compare_lines(a, x, lm, None, P.get("float_value_eq", False))[0] in ("same", "drift") for x in vs):
+                        corr["accepted_alternatives"] = corr.get("accepted_alternatives", 0) + 1
+                        continue
+                    bt = b.split(" ")
+                    cut = len(bt)
+                    for x in vs:
+                        xt = x.split(" ")
+                        j = 0
+                        while j < min(len(xt), len(bt)) and xt[j] == bt[j]:
+                            j += 1
+                        if j < max(len(xt), len(bt)):
+                            cut = min(cut, j)
+                    corr["tie_dependent_suffixes_skipped"] = corr.get("tie_dependent_suffixes_skipped", 0) + 1
+                    a, b = " ".join(a.split(" ")[:cut]), " ".join(bt[:cut])
                 v, detail = wire.compare_lines(a, b, lm, P.get("tol"), P.get("float_value_eq", False))
                 # per-configuration exemption with a bound (C19: powf under libm / micromath): inside the bound = agreement
                 if v in ("hard", "soft") and "config_tol" in P:
@@ -382,6 +418,7 @@ def main():
             "correspondence": {"configs": corr["configs"], "disagreements": corr["disagreements"],
                                "hard": corr["hard"], "soft_within_tolerance": corr["soft"],
                                "accepted_property_conformant_alternatives": corr.get("accepted_alternatives", 0),
+                               "tie_dependent_suffixes_skipped": corr.get("tie_dependent_suffixes_skipped", 0),
                                "informational_model_disagreements": corr.get("informational_model_disagreements", 0),
                                "drift_outside_owned_observables": corr["drift"],
                                "owned_observables": sorted(P["mask"]), "tolerance": P.get("tol")},
